@@ -21,4 +21,7 @@ Init == /\ items \in UNION {UNION {Splits(s, k) : k \in 1..MaxItems} : s \in Str
 Next == phase = 0 /\ phase' = 1 /\ UNCHANGED <<items, ops>>
 Spec == Init /\ [][Next]_<<items, ops, phase>>
 AlgorithmIsAFile == phase = 1 => Impl(items, ops \o <<<<"read", 2>>, <<"readline">>>>) = Ref(items, ops \o <<<<"read", 2>>, <<"readline">>>>)
+\* mutant: the local-accumulation design of read() is not a file (checked on read-only call sequences; TLC must refute this)
+ReadsOnly(os) == \A i \in 1..Len(os) : os[i][1] = "read"
+LossyAlgorithmIsAFile == (phase = 1 /\ ReadsOnly(ops)) => ImplLossy(items, ops \o <<<<"read", 3>>>>) = Ref(items, ops \o <<<<"read", 3>>>>)
 =============================================================================
